@@ -60,6 +60,12 @@ class StlPastifier(LtlPastifier, StlAstVisitor):
             node.begin_unit = ''
             node.end_unit = ''
 
+    def intervals(self, node):
+        out = [node] if isinstance(node, Interval) else []
+        for child in node.children:
+            out = out + self.intervals(child)
+        return out
+
     def started(self, delay):
         # -inf during the first `delay` updates (while a delayed operand has not reached
         # time 0 yet), +inf afterwards
@@ -91,6 +97,10 @@ class StlPastifier(LtlPastifier, StlAstVisitor):
         for spec in ast.specs:
             horizon = horizons[spec]
             pastified_spec = self.visit(spec, horizon)
+            # The rewriting merges the bounds of future operators into delays and
+            # window widths; the bounds as written stay available to the monitors
+            # that have to check them against the sampling period.
+            pastified_spec.bounds_before_pastify = getattr(spec, 'bounds_before_pastify', []) + self.intervals(spec)
             pastified_specs.append(pastified_spec)
         ast.specs = pastified_specs
         ast.phi_name_to_node_dict = self.ast.phi_name_to_node_dict
